@@ -310,10 +310,11 @@ class EGen(Gen):
             if not err and nparams == 1:
                 nparams = 2          # keep contracts out of this stream
             funcs.append(dict(nparams=nparams, pkg=pkg, method=False, body=("skip",), ptypes=["T"] * nparams, rtype="T",
-                              ltypes={}, impl=None, err=err))
+                              ltypes={}, impl=None, err=err, okform=err and r.random() < self.p_ok,
+                              named=err and r.random() < self.p_named))
         if not any(fd["err"] for fd in funcs):
             funcs.append(dict(nparams=1, pkg=0, method=False, body=("skip",), ptypes=["T"], rtype="T", ltypes={}, impl=None, err=True))
-        self.p = dict(funcs=funcs, ginit=[], gpkg=[], npkgs=npk)
+        self.p = dict(funcs=funcs, ginit=[], gpkg=[], npkgs=npk, sentinel=r.random() < self.p_sentinel, sentinel_pkg=0)
         self.next_d = 1
         self.next_cs = 1
         for f in range(len(funcs)):
@@ -322,12 +323,21 @@ class EGen(Gen):
             self.nloc = fd["nparams"] + r.randint(1, 3)
             for q in range(r.randint(1, 2)):
                 fd["ltypes"][50 + q] = "E"
+            if any(g["err"] and g.get("okform") for g in funcs):
+                fd["ltypes"][52] = "B"
             fd["body"] = self.block(r.randint(2, 5), 0, True)
         return self.p
 
-    def evars(self):
+    p_ok = 0.3        # share of error-returning functions spelled (value, ok bool)
+    p_named = 0.3     # ... with named results
+    p_sentinel = 0.3  # share of programs in which a fresh error may be spelled as a package-level sentinel
+
+    def evars(self, form="E"):
         fd = self.p["funcs"][self.f]
-        return [L(n) for n, t in fd["ltypes"].items() if t == "E"]
+        return [L(n) for n, t in fd["ltypes"].items() if t == form]
+
+    def form_of(self, g):
+        return "B" if self.p["funcs"][g].get("okform") else "E"
 
     def ret(self, a=None):
         fd = self.p["funcs"][self.f]
@@ -345,7 +355,9 @@ class EGen(Gen):
         """the early return of a failed check"""
         fd = self.p["funcs"][self.f]
         if fd["err"]:
-            return ("return2", "nil", xe if self.rng.random() < 0.6 else "new")
+            # forwarding the callee's error (inside its own check); an ok result is only ever a constant
+            same = self.p["funcs"][self.f]["ltypes"].get(xe[1]) == "E" and not fd.get("okform")
+            return ("return2", "nil", xe if same and self.rng.random() < 0.6 else "new")
         return ("return", "nil")
 
     def errcallees(self, forward_only=True):
@@ -365,7 +377,7 @@ class EGen(Gen):
         fd = self.p["funcs"][g]
         args = [self.atom() for _ in range(fd["nparams"])]
         x = r.choice([v for v in self.vars() if v[0] == "L"])
-        evs = self.evars()
+        evs = self.evars(self.form_of(g))
         xe = r.choice(evs) if evs and r.random() < 0.9 else None
         call = ("call2", x, xe, g, args, self.cs_id())
         use = lambda: ("deref", self.deref_id(), x)
@@ -380,7 +392,8 @@ class EGen(Gen):
             return M.seq([call, ("if", ("or", ("nonnil", xe), ("opaque",)), ("skip",), use())])                      # compound
         if shape == 4:
             # the error is overwritten before the check
-            over = ("assign", xe, "nil") if r.random() < 0.5 or not self.errcallees(True) else ("call2", None, xe, r.choice(self.errcallees(True)), None, None)
+            same = [g2 for g2 in self.errcallees(True) if self.form_of(g2) == self.form_of(g)]
+            over = ("assign", xe, "nil") if r.random() < 0.5 or not same else ("call2", None, xe, r.choice(same), None, None)
             if over[0] == "call2":
                 g2 = over[3]
                 over = ("call2", None, xe, g2, [self.atom() for _ in range(self.p["funcs"][g2]["nparams"])], self.cs_id())
@@ -403,7 +416,7 @@ class EGen(Gen):
 
     def cond(self, depth=0):
         c = Gen.cond(self, depth)
-        evs = self.evars()
+        evs = self.evars("E") + self.evars("B")
         if c[0] == "nonnil" and evs and self.rng.random() < 0.25:
             return ("nonnil", self.rng.choice(evs))
         return c
@@ -649,6 +662,9 @@ def probed(fd):
             and (fd.get("ptypes") or ["T"])[0] == "T" and fd.get("rtype", "T") == "T")
 
 
+SRET = {}   # program name -> {(file, line)} of the return statements whose error operand is the package-level sentinel
+
+
 def write_module(root, progs, styles):
     """progs: {name: program}; returns ({name: {deref id: (file, line, col)}}, {name: {call site: (file, line, col call, col arg)}})"""
     pos, cpos = {}, {}
@@ -664,6 +680,7 @@ def write_module(root, progs, styles):
             open(fn, "w").write(txt)
         pos[name] = dict(pr.pos)
         cpos[name] = dict(pr.cpos)
+        SRET[name] = set(pr.sret)
         k = p["funcs"][0]["pkg"]
         for j in range(p["npkgs"]):
             imports.append('\t%s "%s"' % (pr.pkgname(j), pr.pkgpath(j)))
@@ -965,6 +982,8 @@ def parse_site(s, cp, p=None):
     kind = kind.split(".")[-1]
     if kind == "GlobalVarAnnotationKey":
         m = re.search(r"Global Variable G(\d+)$", desc)
+        if desc.endswith("Global Variable ErrS"):
+            return ("sentinel",)
         return ("global", int(m.group(1))) if m else ("?", s)
     fn = parse_fn(full, p or {})
     if fn is None:
@@ -978,6 +997,9 @@ def parse_site(s, cp, p=None):
     if kind == "RecvAnnotationKey":
         return ("param", fn[1], 0) if fn[0] == "func" else ("?", s)
     if kind == "RetAnnotationKey":
+        m = re.match(r"Result (\d+) of", desc)
+        if m and m.group(1) != "0":
+            return ("eresult", fn[1]) if fn[0] == "func" else ("?", s)
         return ("iresult", fn[1], fn[2]) if fn[0] == "imeth" else ("result", fn[1])
     if kind in ("CallSiteParamAnnotationKey", "CallSiteRetAnnotationKey") and fn[0] == "func":
         m = re.search(r" at Location (\S+):(\d+):(\d+)$", desc)
@@ -1017,6 +1039,23 @@ def real_triggers(res, name, pos, cpos=None, prog=None):
             continue
         if not t["pk"] and not t["ck"]:
             continue          # a placeholder trigger of the error-return machinery that was resolved away
+        # the package-level sentinel error: its declaration, and the returns `return a, ErrS` -- whose error trigger
+        # (sentinel -> error result, nilability unknown to the function analysis) is inert in the fragment and whose
+        # value triggers the engine removes in its second phase (the sentinel is never determined nil-able); the model
+        # has no trigger for a return with a non-nil error
+        if t["ck"] == "2" and t["cs"].endswith("Global Variable ErrS") and t["pk"] == "4" or (
+                t["ck"] == "2" and t["cs"].endswith("Global Variable ErrS") and "errors.New" in t["ps"]):
+            continue
+        if t["ct"] == "*annotation.UseAsNonErrorRetDependentOnErrorRetNilability":
+            if (t["file"], t["line"]) in SRET.get(name, ()):
+                continue
+            odd.append(t); continue
+        if t["ct"] == "*annotation.UseAsErrorRetWithNilabilityUnknown":
+            if (t["file"], t["line"]) in SRET.get(name, ()) and t["pk"] == "2" and t["ps"].endswith("Global Variable ErrS"):
+                continue
+            odd.append(t); continue
+        if t["pk"] == "2" and t["ps"].endswith("Global Variable ErrS") and t["ct"] == "*annotation.UseAsErrorResult" and "Result 1 of" in t["cs"]:
+            continue          # `return a, ErrS` resolved inside the function analysis: sentinel -> error result, inert
         if t["pk"] == "1":
             prod = "nil"
         elif t["pk"] == "2":
